@@ -403,7 +403,13 @@ def _cut_shard(ctx: Ctx, shard: int, nshards: int, per_scenario: int) -> None:
     for name in capture.SCENARIOS:
         _, n = honest_corpus(name)
         ks = list(range(0, n + 1))
-        if per_scenario and len(ks) > per_scenario:
+        if name.startswith("service"):
+            # a complete service instance costs ~1.5 s per cut: fewer cuts per variant
+            per = 16 if per_scenario else 120
+            step = len(ks) / per
+            off = ctx.seed % max(1, int(step))
+            ks = sorted({min(n, int(i * step) + off) for i in range(per)} | {0, n})
+        elif per_scenario and len(ks) > per_scenario:
             step = len(ks) / per_scenario
             off = ctx.seed % max(1, int(step))
             ks = sorted({min(n, int(i * step) + off) for i in range(per_scenario)} | {0, n})
